@@ -2,71 +2,44 @@
 C19  Peer-to-peer mesh always forms completely and consistently.
 
 Model: `Mpc.Mesh` (Model/Mesh.lean), a transition system over all parties'
-`Join`/`Connect` goroutines, their accept goroutines, the listeners' sets of
-not yet accepted connections (accept order arbitrary) and the leader's info
-messages.  Quantification in every theorem: every configuration `c` with
-`2 ≤ n`, `1 ≤ m ≤ 256` (`Cfg.Ok`: what `Create`/`Join`/`dial` accept), every
-reachable state, i.e. every interleaving of every start order.
+`Join`/`Connect` goroutines, their accept goroutines (three critical sections
+per accepted connection: check `need[k] > 0`, store with `SetConn`/`addPeer`,
+then `need[k]--; Broadcast`), the listeners' sets of not yet accepted
+connections (accept order arbitrary) and the leader's info messages.
+Quantification in every theorem: every configuration `c` with `2 ≤ n`,
+`1 ≤ m ≤ 256` (`Cfg.Ok`: what `Create`/`Join`/`dial` accept), every state
+reachable by the code as it is (`Reach`), i.e. every interleaving of every
+start order, including every interleaving inside `acceptConn`.
 
-The code as it is (`ReachF`: `acceptConn` decrements `need[k]` and broadcasts
-BEFORE it stores the connection with `SetConn`/`addPeer`, in two critical
-sections) violates the property: the three full statements
-
-  mesh_safe     : ReachF c s → s.bad = false
-  mesh_progress : ReachF c s → (∃ p < n, phase p ≠ done) → some faithful event is enabled
-  mesh_final    : ReachF c s → phase p = done → p's table is complete
-
-are all false; `C19_faithful_*` below are the machine-checked counterexamples
-(replayed on the real code by checks/C19.py: profile `midaccept`).  What is
-proved at full generality are the same three statements for the atomic
-system `ReachA`, in which the accept goroutine is not interrupted between
-`need[k]--` and the store (`Ev.accept`), i.e. for the code with the store
-moved in front of the decrement.  Every atomic run is a run of the code as it
-is (`C19_atomic_runs_are_runs`).
+History: before commit b60eeb5 `acceptConn` decremented `need[k]` and
+broadcast BEFORE it stored the connection; for that ordering (`ReachOld`,
+events `oldDec`/`oldStore`) all three statements are false.  The witnesses
+`C19_old_order_*` below document what the repair removed; checks/C19.py
+replays their schedules on the real code and requires that they no longer
+produce the failure.
 -/
 import MpcVerif.Proofs.MeshMeasure
 
 namespace Mpc
 open Mesh
 
-/-- Atomic runs are runs of the code as it is: `accept` = `accDec` then `accStore`. -/
-theorem C19_atomic_runs_are_runs (c : Cfg) (s : State) (h : ReachA c s) : ReachF c s := by
-  induction h with
-  | init => exact .init
-  | @step s0 s1 e _ he hs ih =>
-    cases e with
-    | accDec j i k => simp [Ev.atomic] at he
-    | accStore j => simp [Ev.atomic] at he
-    | accept j i k =>
-      simp only [step] at hs
-      cases h1 : stepAccDec c s0 j i k with
-      | none => simp [h1] at hs
-      | some s1 =>
-        simp only [h1, Option.bind_some] at hs
-        exact .step (.accStore j) (.step (.accDec j i k) ih rfl h1) rfl hs
-    | join i => exact .step _ ih rfl hs
-    | lconnect => exact .step _ ih rfl hs
-    | hello i => exact .step _ ih rfl hs
-    | waitDone p => exact .step _ ih rfl hs
-    | info => exact .step _ ih rfl hs
-    | recvInfo i => exact .step _ ih rfl hs
-    | dial i => exact .step _ ih rfl hs
-
-/-- **mesh_safe** (atomic system).  In every reachable state: no party has
+/-- **mesh_safe**.  In every reachable state: no party has
 taken an error path — `SetConn` never met an occupied slot, "too many
 connections" (`need[k] = 0` at an accept) never occurred, no invalid peer or
 connection id, no refused dial; every table entry `Peers[q].Conns[k]` of party
 p holds the canonical connection between p and q with hello id k (so the id
 and the peer are right, and both ends index it by the same k); an entry at the
 accepting end implies the same connection at the dialling end; and no dialled
-connection is lost (it is pending at the listener or stored at the acceptor;
-connection 0 to the leader may still await its hello). -/
-theorem C19_mesh_safe_partial (c : Cfg) (hc : c.Ok) (s : State) (h : ReachA c s) :
+connection is lost (it is pending at the listener, held by the acceptor's
+accept goroutine or stored at the acceptor; connection 0 to the leader may
+still await its hello). -/
+theorem C19_mesh_safe (c : Cfg) (hc : c.Ok) (s : State) (h : Reach c s) :
     s.bad = false ∧
     (∀ p q k cn, s.conn p q k = some cn → cn = wire p q k ∧ p ≠ q ∧ p < c.n ∧ q < c.n ∧ k < c.m) ∧
     (∀ p q k cn, s.conn p q k = some cn → cn.dst = p → s.conn q p k = some cn) ∧
     (∀ p q k cn, s.conn p q k = some cn → cn.src = p →
-      s.pend q p k = true ∨ s.conn q p k = some cn ∨ (q = 0 ∧ k = 0 ∧ s.phase p = .joined)) := by
+      s.pend q p k = true ∨ s.conn q p k = some cn ∨ (q = 0 ∧ k = 0 ∧ s.phase p = .joined) ∨
+        s.infl q = .taken p k) := by
   have hI := reach_inv c hc s h
   refine ⟨hI.notBad, hI.slot, ?_, ?_⟩
   · intro p q k cn hcn hdst
@@ -98,43 +71,44 @@ theorem C19_mesh_safe_partial (c : Cfg) (hc : c.Ok) (s : State) (h : ReachA c s)
         · by_cases hlt : p < q
           · exact ⟨by omega, Or.inr hlt⟩
           · simp [hq0, hp0, hlt] at hsrc; omega
-    rcases hI.dialSlot p q k hd (by simp [hcn]) with e | e | e
+    rcases hI.dialSlot p q k hd (by simp [hcn]) with e | e | e | e
     · exact Or.inl e
     · right; left
       cases hcn' : s.conn q p k with
       | none => simp [hcn'] at e
       | some v => rw [(hI.slot q p k v hcn').1, hw, wire_comm p q k hpq]
-    · exact Or.inr (Or.inr e)
+    · exact Or.inr (Or.inr (Or.inl e))
+    · exact Or.inr (Or.inr (Or.inr e))
 
 example : (⟨3, 2⟩ : Cfg).Ok := ⟨by decide, by decide, by decide⟩
 
-/-- No atomic step from a reachable state takes an error path (the successor
+/-- No step from a reachable state takes an error path (the successor
 state is again free of errors): in particular a `dial` is never issued on an
 occupied slot and an accept never finds `need[k] = 0`. -/
-theorem C19_no_error_step_partial (c : Cfg) (hc : c.Ok) (s s' : State) (h : ReachA c s) (e : Ev)
-    (he : e.atomic = true) (hs : step c s e = some s') : s'.bad = false :=
+theorem C19_no_error_step (c : Cfg) (hc : c.Ok) (s s' : State) (h : Reach c s) (e : Ev)
+    (he : e.real = true) (hs : step c s e = some s') : s'.bad = false :=
   (reach_inv c hc s' (.step e h he hs)).notBad
 
-/-- **mesh_progress** (atomic system), part 1: deadlock freedom.  In every
+/-- **mesh_progress**, part 1: deadlock freedom.  In every
 reachable state in which some party's `Connect` has not returned some event is
 enabled. -/
-theorem C19_mesh_progress_partial (c : Cfg) (hc : c.Ok) (s : State) (h : ReachA c s)
-    (hnd : ∃ p, p < c.n ∧ s.phase p ≠ .done) : ∃ e, e.atomic = true ∧ (step c s e).isSome :=
+theorem C19_mesh_progress (c : Cfg) (hc : c.Ok) (s : State) (h : Reach c s)
+    (hnd : ∃ p, p < c.n ∧ s.phase p ≠ .done) : ∃ e, e.real = true ∧ (step c s e).isSome :=
   progress c hc s (reach_inv c hc s h) hnd
 
 /-- **mesh_progress**, part 2: every step strictly decreases the measure `mu`
-(remaining goroutine steps + remaining accepts), ... -/
-theorem C19_measure_decreases_partial (c : Cfg) (hc : c.Ok) (s s' : State) (h : ReachA c s) (e : Ev)
-    (he : e.atomic = true) (hs : step c s e = some s') : mu c s' < mu c s :=
+(remaining goroutine steps + three per remaining accept), ... -/
+theorem C19_measure_decreases (c : Cfg) (hc : c.Ok) (s s' : State) (h : Reach c s) (e : Ev)
+    (he : e.real = true) (hs : step c s e = some s') : mu c s' < mu c s :=
   measure_step c hc s s' (reach_inv c hc s h) e he hs
 
-/-- ... hence every execution is finite: a run of atomic events from the
+/-- ... hence every execution is finite: a run of events of the code from the
 initial state has at most `mu c (init c)` steps, whatever the schedule (no
 fairness assumption is needed: there are no stuttering steps).  With part 1:
 every maximal execution ends with every `Connect` returned. -/
-theorem C19_terminates_partial (c : Cfg) (hc : c.Ok) (es : List Ev) (hat : ∀ e ∈ es, e.atomic = true)
+theorem C19_terminates (c : Cfg) (hc : c.Ok) (es : List Ev) (hat : ∀ e ∈ es, e.real = true)
     (s : State) (hr : run c (init c) es = some s) : es.length + mu c s ≤ mu c (init c) := by
-  suffices H : ∀ (es : List Ev) (s0 : State), ReachA c s0 → (∀ e ∈ es, e.atomic = true) →
+  suffices H : ∀ (es : List Ev) (s0 : State), Reach c s0 → (∀ e ∈ es, e.real = true) →
       run c s0 es = some s → es.length + mu c s ≤ mu c s0 from H es (init c) .init hat hr
   intro es
   induction es with
@@ -148,17 +122,17 @@ theorem C19_terminates_partial (c : Cfg) (hc : c.Ok) (es : List Ev) (hat : ∀ e
       simp only [h1, Option.bind_some] at hr
       have he := hat e (by simp)
       have := ih s1 (.step e h0 he h1) (fun e' he' => hat e' (by simp [he'])) hr
-      have := C19_measure_decreases_partial c hc s0 s1 h0 e he h1
+      have := C19_measure_decreases c hc s0 s1 h0 e he h1
       simp only [List.length_cons]
       omega
 
-/-- **mesh_final** (atomic system).  When `Connect` has returned at party p
+/-- **mesh_final**.  When `Connect` has returned at party p
 (in particular in the final state, for every p) its table holds, for every
 other party q and every k < m, exactly the canonical connection between p and
 q with id k, and nothing else.  If q's `Connect` has returned as well, q holds
 the same connection under the same k: the k-th connection at one end is the
 k-th at the other. -/
-theorem C19_mesh_final_partial (c : Cfg) (hc : c.Ok) (s : State) (h : ReachA c s) (p : Nat)
+theorem C19_mesh_final (c : Cfg) (hc : c.Ok) (s : State) (h : Reach c s) (p : Nat)
     (hp : p < c.n) (hd : s.phase p = .done) :
     (∀ q k, q < c.n → q ≠ p → k < c.m → s.conn p q k = some (wire p q k)) ∧
     (∀ q k, (q = p ∨ c.n ≤ q ∨ c.m ≤ k) → s.conn p q k = none) ∧
@@ -177,15 +151,15 @@ theorem C19_mesh_final_partial (c : Cfg) (hc : c.Ok) (s : State) (h : ReachA c s
 
 /-- In the final state nothing is in flight: no pending connection (none lost),
 no unread info, no half-done accept. -/
-theorem C19_final_quiet_partial (c : Cfg) (hc : c.Ok) (s : State) (h : ReachA c s)
+theorem C19_final_quiet (c : Cfg) (hc : c.Ok) (s : State) (h : Reach c s)
     (hall : ∀ p, p < c.n → s.phase p = .done) :
-    (∀ j i k, s.pend j i k = false) ∧ (∀ p, p < c.n → s.mail p = none) ∧ (∀ p, s.infl p = none) :=
+    (∀ j i k, s.pend j i k = false) ∧ (∀ p, p < c.n → s.mail p = none) ∧ (∀ p, s.infl p = Infl.none) :=
   done_quiet c hc s (reach_inv c hc s h) hall
 
-/-! ### non-vacuity: the atomic system does reach the final state -/
+/-! ### non-vacuity: the system does reach the final state -/
 
-theorem reachA_of_run (c : Cfg) (es : List Ev) (hat : ∀ e ∈ es, e.atomic = true) (s0 s : State)
-    (h0 : ReachA c s0) (hr : run c s0 es = some s) : ReachA c s := by
+theorem reach_of_run (c : Cfg) (es : List Ev) (hat : ∀ e ∈ es, e.real = true) (s0 s : State)
+    (h0 : Reach c s0) (hr : run c s0 es = some s) : Reach c s := by
   induction es generalizing s0 with
   | nil => simp [run] at hr; subst hr; exact h0
   | cons e es ih =>
@@ -196,94 +170,103 @@ theorem reachA_of_run (c : Cfg) (es : List Ev) (hat : ∀ e ∈ es, e.atomic = t
       simp only [h1, Option.bind_some] at hr
       exact ih (fun e' he' => hat e' (by simp [he'])) s1 (.step e h0 (hat e (by simp)) h1) hr
 
-/-- A complete atomic run for 3 parties, 2 connections per pair. -/
+/-- A complete run for 3 parties, 2 connections per pair, with other
+goroutines acting between the critical sections of `acceptConn`. -/
 def demoRun : List Ev :=
-  [.join 2, .lconnect, .join 1, .hello 1, .accept 0 1 0, .hello 2, .accept 0 2 0, .waitDone 0, .info, .info,
-   .recvInfo 2, .recvInfo 1, .dial 1, .waitDone 1, .dial 1, .accept 2 1 0, .waitDone 2, .dial 2, .dial 1,
-   .accept 0 2 1, .accept 0 1 1, .waitDone 0, .accept 2 1 1, .waitDone 2, .waitDone 1]
+  [.join 2, .lconnect, .join 1, .hello 1, .accTake 0 1 0, .hello 2, .accStore 0, .accDec 0,
+   .accTake 0 2 0, .accStore 0, .accDec 0, .waitDone 0, .info, .info,
+   .recvInfo 2, .recvInfo 1, .dial 1, .waitDone 1, .dial 1, .accTake 2 1 0, .accStore 2, .dial 1, .accDec 2,
+   .waitDone 2, .dial 2, .accTake 0 2 1, .accStore 0, .accDec 0, .accTake 0 1 1, .accTake 2 1 1, .accStore 0,
+   .accStore 2, .accDec 0, .waitDone 0, .accDec 2, .waitDone 2, .waitDone 1]
 
-example : demoRun.all Ev.atomic = true ∧ ((run ⟨3, 2⟩ (init ⟨3, 2⟩) demoRun).map fun s =>
+example : demoRun.all Ev.real = true ∧ ((run ⟨3, 2⟩ (init ⟨3, 2⟩) demoRun).map fun s =>
     allDone ⟨3, 2⟩ s && quiet ⟨3, 2⟩ s && (List.range 3).all (tableComplete ⟨3, 2⟩ s)) = some true := by
   decide +kernel
 
-/-- ... so the hypotheses of the theorems above are satisfiable with a
-party whose `Connect` has returned. -/
-example : ∃ s, ReachA ⟨3, 2⟩ s ∧ s.phase 0 = .done ∧ s.phase 2 = .done := by
+/-- ... so the hypotheses of the theorems above are satisfiable with parties
+whose `Connect` has returned. -/
+example : ∃ s, Reach ⟨3, 2⟩ s ∧ s.phase 0 = .done ∧ s.phase 2 = .done := by
   cases hrun : run ⟨3, 2⟩ (init ⟨3, 2⟩) demoRun with
   | none =>
     have : (run ⟨3, 2⟩ (init ⟨3, 2⟩) demoRun).isSome = true := by decide +kernel
     simp [hrun] at this
   | some s =>
-    refine ⟨s, reachA_of_run _ demoRun (by decide) _ s .init hrun, ?_, ?_⟩
+    refine ⟨s, reach_of_run _ demoRun (by decide) _ s .init hrun, ?_, ?_⟩
     · have : ((run ⟨3, 2⟩ (init ⟨3, 2⟩) demoRun).map fun s => s.phase 0) = some .done := by decide +kernel
       simpa [hrun] using this
     · have : ((run ⟨3, 2⟩ (init ⟨3, 2⟩) demoRun).map fun s => s.phase 2) = some .done := by decide +kernel
       simpa [hrun] using this
 
-/-! ### the code as it is violates the property (negation witnesses) -/
+/-! ### what the repair removed: the ordering before b60eeb5 (decrement and
+signal first, store afterwards) violates all three statements -/
 
-/-- n = 2, m = 1: the leader's wait ends between `need[0]--` and the store of
-peer 1, so its peer list is still `[0]`, nobody is sent the network info and
-the leader's `Connect` returns; peer 1 waits for the info forever. -/
-def deadlockRun : List Ev :=
-  [.join 1, .hello 1, .lconnect, .accDec 0 1 0, .waitDone 0, .accStore 0]
+theorem reachOld_of_run (c : Cfg) (es : List Ev) (hat : ∀ e ∈ es, e.old = true) (s0 s : State)
+    (h0 : ReachOld c s0) (hr : run c s0 es = some s) : ReachOld c s := by
+  induction es generalizing s0 with
+  | nil => simp [run] at hr; subst hr; exact h0
+  | cons e es ih =>
+    simp only [run] at hr
+    cases h1 : step c s0 e with
+    | none => simp [h1] at hr
+    | some s1 =>
+      simp only [h1, Option.bind_some] at hr
+      exact ih (fun e' he' => hat e' (by simp [he'])) s1 (.step e h0 (hat e (by simp)) h1) hr
 
-/-- **mesh_progress is false for the code as it is**: a reachable state in
-which peer 1's `Connect` has not returned and no event is enabled. -/
-theorem C19_faithful_deadlock :
-    ∃ s, ReachF ⟨2, 1⟩ s ∧ s.bad = false ∧ s.phase 0 = .done ∧ s.phase 1 = .hello ∧
-      enabled ⟨2, 1⟩ s Ev.faithful = [] := by
-  have hr : ∀ (es : List Ev) (s0 s : State), (∀ e ∈ es, e.faithful = true) → ReachF ⟨2, 1⟩ s0 →
-      run ⟨2, 1⟩ s0 es = some s → ReachF ⟨2, 1⟩ s := by
-    intro es
-    induction es with
-    | nil => intro s0 s _ h0 hr; simp [run] at hr; subst hr; exact h0
-    | cons e es ih =>
-      intro s0 s hf h0 hr
-      simp only [run] at hr
-      cases h1 : step ⟨2, 1⟩ s0 e with
-      | none => simp [h1] at hr
-      | some s1 =>
-        simp only [h1, Option.bind_some] at hr
-        exact ih s1 s (fun e' he' => hf e' (by simp [he'])) (.step e h0 (hf e (by simp)) h1) hr
-  cases hrun : run ⟨2, 1⟩ (init ⟨2, 1⟩) deadlockRun with
+/-- n = 2, m = 1, old ordering: the leader's wait ends between `need[0]--` and
+the store of peer 1, so its peer list is still `[0]`, nobody is sent the
+network info and the leader's `Connect` returns; peer 1 waits forever. -/
+def oldDeadlockRun : List Ev :=
+  [.join 1, .hello 1, .lconnect, .oldDec 0 1 0, .waitDone 0, .oldStore 0]
+
+/-- Old ordering: a reachable state in which peer 1's `Connect` has not
+returned and no event is enabled (mesh_progress was false). -/
+theorem C19_old_order_deadlock :
+    ∃ s, ReachOld ⟨2, 1⟩ s ∧ s.bad = false ∧ s.phase 0 = .done ∧ s.phase 1 = .hello ∧
+      enabled ⟨2, 1⟩ s Ev.old = [] := by
+  cases hrun : run ⟨2, 1⟩ (init ⟨2, 1⟩) oldDeadlockRun with
   | none =>
-    have : (run ⟨2, 1⟩ (init ⟨2, 1⟩) deadlockRun).isSome = true := by decide +kernel
+    have : (run ⟨2, 1⟩ (init ⟨2, 1⟩) oldDeadlockRun).isSome = true := by decide +kernel
     simp [hrun] at this
   | some s =>
-    refine ⟨s, hr deadlockRun _ s (by decide) .init hrun, ?_, ?_, ?_, ?_⟩
-    · have : ((run ⟨2, 1⟩ (init ⟨2, 1⟩) deadlockRun).map fun s => s.bad) = some false := by decide +kernel
+    refine ⟨s, reachOld_of_run _ oldDeadlockRun (by decide) _ s .init hrun, ?_, ?_, ?_, ?_⟩
+    · have : ((run ⟨2, 1⟩ (init ⟨2, 1⟩) oldDeadlockRun).map fun s => s.bad) = some false := by decide +kernel
       simpa [hrun] using this
-    · have : ((run ⟨2, 1⟩ (init ⟨2, 1⟩) deadlockRun).map fun s => s.phase 0) = some .done := by decide +kernel
+    · have : ((run ⟨2, 1⟩ (init ⟨2, 1⟩) oldDeadlockRun).map fun s => s.phase 0) = some .done := by decide +kernel
       simpa [hrun] using this
-    · have : ((run ⟨2, 1⟩ (init ⟨2, 1⟩) deadlockRun).map fun s => s.phase 1) = some .hello := by decide +kernel
+    · have : ((run ⟨2, 1⟩ (init ⟨2, 1⟩) oldDeadlockRun).map fun s => s.phase 1) = some .hello := by decide +kernel
       simpa [hrun] using this
-    · have : ((run ⟨2, 1⟩ (init ⟨2, 1⟩) deadlockRun).map fun s => enabled ⟨2, 1⟩ s Ev.faithful) = some [] := by
+    · have : ((run ⟨2, 1⟩ (init ⟨2, 1⟩) oldDeadlockRun).map fun s => enabled ⟨2, 1⟩ s Ev.old) = some [] := by
         decide +kernel
       simpa [hrun] using this
 
-/-- n = 2, m = 2: the leader's last wait ends between `need[1]--` and the store. -/
-def earlyReturnRun : List Ev :=
-  [.join 1, .hello 1, .lconnect, .accDec 0 1 0, .accStore 0, .waitDone 0, .info, .recvInfo 1, .waitDone 1,
-   .dial 1, .accDec 0 1 1, .waitDone 0]
+/-- The same schedule is impossible for the code as it is: after the check
+(`accTake`) the leader's wait cannot end, `need[0]` is still 1. -/
+theorem C19_fix_blocks_early_wait :
+    run ⟨2, 1⟩ (init ⟨2, 1⟩) [.join 1, .hello 1, .lconnect, .accTake 0 1 0, .waitDone 0] = none ∧
+    run ⟨2, 1⟩ (init ⟨2, 1⟩) [.join 1, .hello 1, .lconnect, .accTake 0 1 0, .accStore 0, .waitDone 0] = none := by
+  constructor <;> decide +kernel
 
-/-- **mesh_final is false for the code as it is**: the leader's `Connect` has
-returned nil (no error anywhere) while `Peers[1].Conns[1]` is not set. -/
-theorem C19_faithful_return_incomplete :
-    ((run ⟨2, 2⟩ (init ⟨2, 2⟩) earlyReturnRun).map fun s =>
-      (earlyReturnRun.all Ev.faithful, s.bad, s.phase 0, s.conn 0 1 1)) = some (true, false, .done, none) := by
+/-- n = 2, m = 2, old ordering: the leader's last wait ends between `need[1]--` and the store. -/
+def oldEarlyReturnRun : List Ev :=
+  [.join 1, .hello 1, .lconnect, .oldDec 0 1 0, .oldStore 0, .waitDone 0, .info, .recvInfo 1, .waitDone 1,
+   .dial 1, .oldDec 0 1 1, .waitDone 0]
+
+/-- Old ordering: the leader's `Connect` has returned nil (no error anywhere)
+while `Peers[1].Conns[1]` is not set (mesh_final was false). -/
+theorem C19_old_order_return_incomplete :
+    ((run ⟨2, 2⟩ (init ⟨2, 2⟩) oldEarlyReturnRun).map fun s =>
+      (oldEarlyReturnRun.all Ev.old, s.bad, s.phase 0, s.conn 0 1 1)) = some (true, false, .done, none) := by
   decide +kernel
 
-/-- n = 4, m = 1: the leader sends peer 2 a list made while peer 1 is not yet
-stored; peer 2 computes `NumParties = 3` and rejects peer 3. -/
-def badListRun : List Ev :=
-  [.join 1, .join 2, .join 3, .hello 1, .hello 2, .hello 3, .lconnect, .accDec 0 2 0, .accStore 0,
-   .accDec 0 3 0, .accStore 0, .accDec 0 1 0, .waitDone 0, .info, .recvInfo 2]
+/-- n = 4, m = 1, old ordering: the leader sends peer 2 a list made while peer 1
+is not yet stored; peer 2 computes `NumParties = 3` and rejects peer 3. -/
+def oldBadListRun : List Ev :=
+  [.join 1, .join 2, .join 3, .hello 1, .hello 2, .hello 3, .lconnect, .oldDec 0 2 0, .oldStore 0,
+   .oldDec 0 3 0, .oldStore 0, .oldDec 0 1 0, .waitDone 0, .info, .recvInfo 2]
 
-/-- **mesh_safe is false for the code as it is**: an error path ("invalid peer
-ID") is reachable. -/
-theorem C19_faithful_error :
-    ((run ⟨4, 1⟩ (init ⟨4, 1⟩) badListRun).map fun s => (badListRun.all Ev.faithful, s.bad)) =
+/-- Old ordering: an error path ("invalid peer ID") was reachable (mesh_safe was false). -/
+theorem C19_old_order_error :
+    ((run ⟨4, 1⟩ (init ⟨4, 1⟩) oldBadListRun).map fun s => (oldBadListRun.all Ev.old, s.bad)) =
       some (true, true) := by
   decide +kernel
 
